@@ -25,8 +25,8 @@ SnEnc(sn, enc) ==
 TmsOptional(f) ==
   CASE f.type = "AVAIL" -> IF f.cap >= 0 THEN <<f.cap>> ELSE <<>>
     [] f.type = "TEXT" -> SnEnc(f.sn, f.enc)
-    [] f.type = "ACK" -> IF f.sn > 0 \/ f.enc > 0 THEN SnEnc(IF f.sn < 0 THEN 0 ELSE f.sn, f.enc) ELSE <<>>
-TmsMore(f) == (f.type = "AVAIL" /\ f.cap >= 0) \/ f.type = "TEXT" \/ (f.type = "ACK" /\ (f.sn > 0 \/ f.enc > 0))
+    [] f.type = "ACK" -> IF f.sn >= 0 \/ f.enc > 0 THEN SnEnc(IF f.sn < 0 THEN 0 ELSE f.sn, f.enc) ELSE <<>>      \* sn -1 = none given; 0 is a number
+TmsMore(f) == (f.type = "AVAIL" /\ f.cap >= 0) \/ f.type = "TEXT" \/ (f.type = "ACK" /\ (f.sn >= 0 \/ f.enc > 0))
 TmsFirst(f) == 128 * B(TmsMore(f)) + 64 * B(f.ack) + 32 * B(f.reserved \/ f.type = "TEXT")
                + 16 * B(f.type # "TEXT") + (IF f.type = "ACK" THEN 15 ELSE 0)
 TmsEnc(f) == LET data == LV(f.address) \o TmsOptional(f) \o (IF f.type = "TEXT" THEN f.message ELSE <<>>)
